@@ -306,3 +306,32 @@ spec fn mm_decision(m1: MonthWeekDay, t1: int, m2: MonthWeekDay, t2: int) -> boo
         true
     }
 }
+
+// class conditions for a Mm.w.d day (record a) and a Julian-notation day (record b)
+spec fn mj_m_le_j_same(a: MonthWeekDayCheckInfos, b: JulianDayCheckInfos) -> bool {
+    a.start_normal_year_offset_range.1 <= b.start_normal_year_offset && a.start_leap_year_offset_range.1 <= b.start_leap_year_offset
+}
+
+spec fn mj_j_le_m_same(a: MonthWeekDayCheckInfos, b: JulianDayCheckInfos) -> bool {
+    b.start_normal_year_offset <= a.start_normal_year_offset_range.0 && b.start_leap_year_offset <= a.start_leap_year_offset_range.0
+}
+
+// M(y) <= J(y + 1) for all y
+spec fn mj_m_le_jnext(a: MonthWeekDayCheckInfos, b: JulianDayCheckInfos) -> bool {
+    a.end_normal_year_offset_range.1 <= b.start_normal_year_offset && a.end_normal_year_offset_range.1 <= b.start_leap_year_offset && a.end_leap_year_offset_range.1 <= b.start_normal_year_offset
+}
+
+// J(y + 1) <= M(y) for all y
+spec fn mj_jnext_le_m(a: MonthWeekDayCheckInfos, b: JulianDayCheckInfos) -> bool {
+    b.start_normal_year_offset <= a.end_normal_year_offset_range.0 && b.start_leap_year_offset <= a.end_normal_year_offset_range.0 && b.start_normal_year_offset <= a.end_leap_year_offset_range.0
+}
+
+// J(y) <= M(y + 1) for all y
+spec fn mj_j_le_mnext(a: MonthWeekDayCheckInfos, b: JulianDayCheckInfos) -> bool {
+    b.end_normal_year_offset <= a.start_normal_year_offset_range.0 && b.end_normal_year_offset <= a.start_leap_year_offset_range.0 && b.end_leap_year_offset <= a.start_normal_year_offset_range.0
+}
+
+// M(y + 1) <= J(y) for all y
+spec fn mj_mnext_le_j(a: MonthWeekDayCheckInfos, b: JulianDayCheckInfos) -> bool {
+    a.start_normal_year_offset_range.1 <= b.end_normal_year_offset && a.start_leap_year_offset_range.1 <= b.end_normal_year_offset && a.start_normal_year_offset_range.1 <= b.end_leap_year_offset
+}
